@@ -36,6 +36,7 @@ pub struct FixtureDatabase {}
 
 pub mod resolver {
 use super::*;
+broadcast use {axiom_string_to_string, axiom_identifier_to_string, vstd::std_specs::iter::map_postcondition};
 impl FixtureDatabase {
 //@stub line_index get_line_from_offset
 
@@ -51,7 +52,7 @@ impl FixtureDatabase {
 @ret r
 @rename chain cc_chain
 @sig
-    ensures r.remaining() == all_params(*args).as_ref(),
+    ensures r.remaining() == all_params(*args).as_ref(), r.obeys_prophetic_iter_laws(), r.decrease() is Some,
 @*/
 
 /*@ extract src/fixtures/resolver.rs get_func_context
@@ -63,6 +64,41 @@ impl FixtureDatabase {
 @sig
     requires is_line_index(ints(line_index@)),
     ensures opt_ccv(r) == spec_func_ctx(*func_name, decorator_list@, *args, *returns, body@, range, content@, target_line, line_index@),
+@after is_fixture 1
+    proof {
+        let ds = decorator_list@;
+        if !is_fixture {
+            assert forall|i: int| 0 <= i < ds.len() implies !spec_is_fixture_decorator(&#[trigger] ds[i]) by { let y = ds.as_ref()[i]; }
+        }
+        assert(is_fixture == has_fixture_decorator(ds));
+    }
+@after scope 1
+    proof {
+        let s = decorator_list@.as_ref();
+        assert forall|j: int, o: Option<FixtureScope>| 0 <= j < s.len() && #[trigger] kw_post(s[j], kw_scope_fn(), o)
+            implies o == spec_kw(s[j], kw_scope_fn()) by { lemma_kw_post(s[j], kw_scope_fn(), o); }
+        assert(scope_post(s, scope));
+        lemma_scope_post(decorator_list@, scope);
+    }
+@after params 1
+    proof { assert(str_views(params@) =~= declared_names(*args)); }
+@*/
+
+/*@ extract src/fixtures/resolver.rs get_function_completion_context
+@tags C18 C12
+@ret r
+@sig
+    requires is_line_index(ints(line_index@)),
+    ensures opt_ccv(r) == spec_first_ctx(stmts@, content@, target_line, line_index@),
+    decreases stmts@,
+@loopvar 1 it
+@loop 1
+    invariant it.seq() == stmts@.as_ref(), is_line_index(ints(line_index@)),
+        fc_from(stmts@, 0, content@, target_line, line_index@) == fc_from(stmts@, it.index@ as int, content@, target_line, line_index@),
+@loopstart 1
+    proof { let i = it.index@ as int; assert(*stmt == stmts@[i]);
+        assert(fc_from(stmts@, i, content@, target_line, line_index@)
+            == opt_or(fc_stmt(*stmt, content@, target_line, line_index@), fc_from(stmts@, i + 1, content@, target_line, line_index@))); }
 @*/
 }
 } // mod resolver
